@@ -437,9 +437,14 @@ def count_positions(doc: Doc) -> int:
     return n[0] + 1
 
 
+BOOL_ATTRS = ("useCalibratedValue", "abstract", "extrapolate")
+
+
 def render_xml(doc: Doc, style: str = "xtce", comments=None, whitespace: bool = False,
-               tree: Optional[El] = None) -> bytes:
-    """Serialise.  comments: None | 'all' | set of position indices (see count_positions)."""
+               tree: Optional[El] = None, bool_case: str = "lower") -> bytes:
+    """Serialise.  comments: None | 'all' | set of position indices (see count_positions).
+    bool_case: spelling of boolean attribute values, 'lower' (true/false), 'title' (True/False) or 'upper' (TRUE/FALSE); the library reads
+    all three alike in every place where it reads a boolean."""
     tree = tree or doc_tree(doc)
     pfx = {"xtce": "xtce:", "q": "q:", "XTCE": "XTCE:", "default": "", "none": "", "none+xsi": ""}[style]
     out = ["<?xml version='1.0' encoding='UTF-8'?>\n"]
@@ -454,7 +459,12 @@ def render_xml(doc: Doc, style: str = "xtce", comments=None, whitespace: bool = 
         return ("\n" + "  " * depth) if whitespace else ""
 
     def emit(e: El, depth: int, is_root=False):
-        attrs = "".join(f" {k}={quoteattr(str(v))}" for k, v in e.attrs.items())
+        av = dict(e.attrs)
+        if bool_case != "lower":
+            for k in BOOL_ATTRS:
+                if av.get(k) in ("true", "false"):
+                    av[k] = av[k].title() if bool_case == "title" else av[k].upper()
+        attrs = "".join(f" {k}={quoteattr(str(v))}" for k, v in av.items())
         if is_root:
             if style in ("xtce", "q", "XTCE"):
                 attrs += f' xmlns:{pfx[:-1]}="{XTCE_URI}"'
